@@ -266,6 +266,7 @@ Outcome check_plan(const std::string &prop, const Plan &p)
                                 RunResult rv = run_plan(v, vo);
                                 o.runs++;
                                 o.enum_points++;
+                                o.variant_hashes.push_back(std::make_pair(((uint64_t)(which + 1) << 32) | (uint64_t)k, rv.hash));
                                 if (rv.viol.set()) {
                                         classify(o, prop, rv.viol);
                                         if (o.viol.set()) {
